@@ -19,6 +19,7 @@ META = {
                   "outcomes for unknown self types are not modelled (the property is about closed goals); lifetimes are erased. Unsize, "
                   "Pointee, DiscriminantKind, Fn* and Coroutine are other properties' business.",
     "design_ref": "DESIGN.md §4 C08",
+    "bins": ["solve", "rules"],
     "assumptions": [
         "lifetimes are erased in the model (generated programs cannot produce region constraints: impl headers use fresh lifetime parameters)",
         "the `rules` harness renders chalk_ir clauses faithfully; clauses with a FromEnv condition are ignored (empty environment)",
@@ -57,10 +58,21 @@ def run(ctx):
     ok, why = ctx.proof_stage("Props.C08", ["sized_spec", "copy_spec", "clone_spec", "tuple_spec", "fnptr_spec", "sized_clauses_spec",
                                             "copy_clauses_spec", "tuple_clauses_spec", "fnptr_clauses_spec", "unsized_kinds", "evalR_correct"])
     if not ok:
-        ctx.violation({"kind": "proof", "broken": why}, no_input=True)
+        # a theorem no longer checks: look for a concrete failing input first (the oracle functions may
+        # still build); if none is found, report the broken theorem itself
+        try:
+            _body(ctx)
+        except Exception as e:  # noqa: BLE001
+            core.log("search for a failing input did not complete: %s" % e)
+        if not ctx.violations:
+            ctx.violation({"kind": "proof", "broken": why}, no_input=True)
         return
+    _body(ctx)
+
+
+def _body(ctx):
     core.build_harness(bins=["solve", "rules"])
-    progs, cases = rl.gen_programs(ctx, "builtin", ctx.n(40, 1500), ctx.n(12, 16))
+    progs, cases = rl.gen_programs(ctx, "builtin", ctx.n(40, 400), ctx.n(12, 16))
     for p, gs in corpus_cases():
         p.text, p.model = rg.to_text(p), rg.to_model(p)
         pidx = len(progs)
